@@ -73,6 +73,7 @@ pub struct Ctx<'a> {
     pub sig_params: Vec<(String, String)>, // (lean name, lean type) of function params incl. self
     pub value_depth: usize,
     pub prelude: Vec<String>,
+    pub mut_self: bool,
 }
 
 #[derive(Clone)]
